@@ -276,6 +276,18 @@ MUTANTS = [
       "        d = self._try_to_download_data()\n        def _apply(old_contents):\n",
       "        c = consumer.MemoryConsumer()\n        d = self._read(c, fetch_privkey=True)\n"
       "        d.addCallback(lambda mc: b\"\".join(mc.chunks))\n        def _apply(old_contents):\n", None),
+    # ---- C13.4 the local holding the cap string is known by what it is bound to, not by its name
+    M("benign-bigcap-renamed", NM, '        bigcap = writecap or readcap\n        if not bigcap:\n', '        bigcap_sa = writecap or readcap\n        if not bigcap_sa:\n', None, edits=[
+      (NM, '        if deep_immutable:\n            memokey = b"I" + bigcap\n        else:\n            memokey = b"M" + bigcap\n', '        if deep_immutable:\n            memokey = b"I" + bigcap_sa\n        else:\n            memokey = b"M" + bigcap_sa\n'), (NM, '            cap = uri.from_string(bigcap, deep_immutable=deep_immutable,\n', '            cap = uri.from_string(bigcap_sa, deep_immutable=deep_immutable,\n')]),
+    M("renamed-bigcap-is-a-prefix-of-the-cap", NM, '        bigcap = writecap or readcap\n        if not bigcap:\n', '        capstr = (writecap or readcap)[:40]\n        if not capstr:\n', "C13.4", edits=[
+      (NM, '        if deep_immutable:\n            memokey = b"I" + bigcap\n        else:\n            memokey = b"M" + bigcap\n', '        if deep_immutable:\n            memokey = b"I" + capstr\n        else:\n            memokey = b"M" + capstr\n'), (NM, '            cap = uri.from_string(bigcap, deep_immutable=deep_immutable,\n', '            cap = uri.from_string(capstr, deep_immutable=deep_immutable,\n')]),
+    # ---- C13.6 `d = E; return d` and `return E` are the same function
+    M("benign-read-returns-download-directly", FN,
+      "        d = r.download(consumer, offset, size)\n        return d\n",
+      "        return r.download(consumer, offset, size)\n", None),
+    M("benign-read-download-via-two-locals", FN,
+      "        d = r.download(consumer, offset, size)\n        return d\n",
+      "        d = r.download(consumer, offset, size)\n        done = d\n        return done\n", None),
     # ---- vanished anchor
     M("vanish-create-from-cap", NM,
       "    def create_from_cap(self, writecap, readcap=None,", "    def create_from_capX(self, writecap, readcap=None,",
